@@ -78,4 +78,28 @@ PROPS["C10"] = {
     "explanation": "routing model",
 }
 
+PROPS["C05"] = {
+    "proof_files": ["Proofs/Crash.v", "Proofs/Calls.v"],
+    "gen_files": ["Gen/Calls.v"],
+    "corr": ["C05"],
+    "trusted_base": ["tie to the code: CORRESPONDENCE - Model/Crash.v is hand-written; hook traces of real receiver runs (chunk written / chunk marked per file, under injected flushes) must be accepted by the model's guarded step (write before mark), and at every hook point the output directory is snapshotted = the disk a SIGKILL there would leave, each snapshot checked chunk by chunk against the source with the real LoadSidecar",
+                     "atomic rename(2) and 'completed syscalls survive SIGKILL' (page cache) are assumptions about the OS"],
+    "assumptions": ["process kill, not power loss: fsync ordering is outside the property", "the data file is not edited from outside between runs"],
+    "level_text": "Invariant proved for all interleavings of any number of chunk writers with metadata flushes and for a kill at every point (every prefix), carried across restarts; the model's program-order guard is validated against hook traces of the real receiver and the invariant is checked directly on kill-point snapshots of real runs.",
+    "level_note": "Trusted: Coq kernel, harness, hook points (add-only). Modelled not verified: the filesystem (rename atomicity), Go scheduling below hook granularity.",
+    "technique": "Coq invariant proof over crash/interleaving event lists + kill-point snapshot enumeration on real runs",
+    "explanation": "crash model",
+}
+PROPS["C04"] = {
+    "proof_files": ["Proofs/Crash.v", "Proofs/Dispatch.v", "Proofs/Geometry.v"],
+    "gen_files": ["Gen/Geometry.v"],
+    "corr": ["C05", "C17"],
+    "trusted_base": ["tie to the code: CORRESPONDENCE - the crash model (as in C05) and the dispatch model (as in C17) are validated against the code; every kill-point snapshot of real runs is resumed from with the real endpoints, up to 3 interruptions deep, and the final tree compared with the source"],
+    "assumptions": ["the data file is not edited from outside between runs", "liveness of the resumed run is tested (watchdog), not proved"],
+    "level_text": "Safety of resume is proved as a composition (metadata honest along any chain of kills and restarts; the sender skips only what the loaded plan marks present below the verification point; chunk geometry tiles the file); that the resumed run actually succeeds is exercised on every kill-point snapshot of real runs, chains included.",
+    "level_note": "Trusted: Coq kernel, harness. PARTIAL: the second run's success (liveness) is tested, not proved; the receiver's main loop is not yet modelled in Coq (see C01).",
+    "technique": "Coq composition of crash-model and dispatch-model theorems + resume-from-every-kill-point enumeration on real runs",
+    "explanation": "composition",
+}
+
 NOT_APPLICABLE = {}
